@@ -156,12 +156,12 @@ impl RollingReader {
         // shorter than a block. It cannot contain any record: give it its nominal size.
         if file.metadata()?.len() < BLOCK_NUM_BYTES as u64 {
             file.set_len(FILE_NUM_BYTES as u64)?;
-            #[cfg(mrecordlog_verif)]
-            crate::verif_hooks::record(crate::verif_hooks::Event::SetLen(
-                first_file.file_number(),
-                FILE_NUM_BYTES as u64,
-            ));
         }
+        #[cfg(mrecordlog_verif)]
+        crate::verif_hooks::record(crate::verif_hooks::Event::EnsureLen(
+            first_file.file_number(),
+            FILE_NUM_BYTES as u64,
+        ));
         let mut block = Box::new([0u8; BLOCK_NUM_BYTES]);
         #[cfg(mrecordlog_verif)]
         {
@@ -326,12 +326,12 @@ impl BlockWrite for RollingWriter {
                     // only consider whole blocks.
                     if file.metadata()?.len() < FILE_NUM_BYTES as u64 {
                         file.set_len(FILE_NUM_BYTES as u64)?;
-                        #[cfg(mrecordlog_verif)]
-                        crate::verif_hooks::record(crate::verif_hooks::Event::SetLen(
-                            next_file_number.file_number(),
-                            FILE_NUM_BYTES as u64,
-                        ));
                     }
+                    #[cfg(mrecordlog_verif)]
+                    crate::verif_hooks::record(crate::verif_hooks::Event::EnsureLen(
+                        next_file_number.file_number(),
+                        FILE_NUM_BYTES as u64,
+                    ));
                     (next_file_number, file)
                 } else {
                     let next_file_number = self.directory.files.inc(&self.file_number);
